@@ -12,7 +12,7 @@ sys.path.insert(0, os.path.join(vf.VERIF, "lib"))
 import egoprog as ep
 
 PROP = "C03"
-BATCH = 400
+BATCH = 300
 ISO_OK, ISO_ERR = (400, 24) if vf.TIER == "thorough" else (80, 6)
 MODES = ("dynamic", "relaxed", "strict")
 
@@ -112,7 +112,46 @@ def go_crosscheck(chk, sd, cases):
     return len(todo)
 
 
+def ego_stage(sd, cases, ego, env, stats):
+    """runs every in-domain cell under each mode (the three modes concurrently); returns {(mode, sid): observation}"""
+    seen = {}
+
+    def one(mode):
+        # every cell is isolated by try/catch (one failing cell cannot mask another, one round of processes);
+        # the self-test re-runs a sample without try/catch and requires identical observations
+        sn = [ep.snippet_arith("ego", i, c, guard=True) for i, c in enumerate(cases) if c["exp"][mode]["wf"]]
+        st = {}
+        obs = ep.run_snippets_ego(ego, env, os.path.join(sd, "ego-" + mode), sn, ["--types", mode], batch=BATCH, stats=st, nproc=6)
+        return mode, obs, st
+    with ThreadPoolExecutor(max_workers=3) as ex:
+        for mode, obs, st in ex.map(one, MODES):
+            stats["processes"] = stats.get("processes", 0) + st.get("processes", 0)
+            for sid, o in obs.items():
+                seen[(mode, sid)] = o
+    return seen
+
+
+def replay(path):
+    """bin/verif check C03 --replay replays/C03-....json : re-runs the recorded cell on the real interpreter"""
+    rp = json.load(open(path))["replay"]
+    case, mode = rp["case"], rp["mode"]
+    chk = vf.Check(PROP)
+    with vf.scratch() as sd:
+        ego = vf.build_ego(sd, stable_overlay(sd))
+        o = ep.run_snippets_ego(ego, vf.ego_env(sd), os.path.join(sd, "replay"), [ep.snippet_arith("ego", 0, case)], ["--types", mode], batch=1)[0]
+        d = judge(case, mode, o)
+        print(ep.ego_program([ep.snippet_arith("ego", 0, case)]))
+        print("observed:", o, "\nexpected:", fmt_exp(case["exp"][mode]["o"]), "\nverdict:", d or "conforms")
+        if d and d[0] != "setup":
+            chk.violation("%s/%s/%s" % (case["key"], mode, d[0]), "%s %s" % (src_of(case, mode), d[1]), rp)
+        chk.cov.update(states=1, transitions=1, evaluations=1)
+        chk.sample({"replayed": case["key"], "mode": mode})
+    return chk.finish()
+
+
 def run():
+    if os.environ.get("VERIF_REPLAY"):
+        return replay(os.environ["VERIF_REPLAY"])
     thorough = vf.TIER == "thorough"
     chk = vf.Check(PROP)
     chk.assumptions += [
@@ -121,7 +160,8 @@ def run():
         "default ego settings (ego.runtime.precision.error=false, default optimizer level); programs are run with `ego run --types M`",
         "for two typed operands of different kinds the reference fixes the result kind only up to: integer < float < complex, "
         "the containing kind inside a family, either kind for signed/unsigned mixes that do not contain each other",
-        "operators covered: + - * / % unary-minus ++ -- += -= *= /= and x = x op k; bit operators, shifts and ^ are not"]
+        "operators covered: + - * / % unary-minus ++ -- += -= *= /= and x = x op k; bit operators, shifts and ^ are not",
+        "cells run inside try/catch for isolation; a seeded sample is re-run without it and must behave identically"]
     with vf.scratch() as sd:
         # 1. the table: enumerated and checked by TLC; every cell printed with its permitted outcomes
         t0 = time.time()
@@ -133,78 +173,72 @@ def run():
         if len({json.dumps(c, sort_keys=True) for c in cases}) != len(cases):
             raise vf.NoVerdict("duplicate cells in TLC output")
         vf.log("TLC: %d cells in %.0fs" % (len(cases), time.time() - t0))
-        # 2. negative control: the invariant sees the as-built x++ (vacuity guard)
-        rn = gen_cases(chk, sd, False, "asis", "EgoTypes_Arith_MC_asis.cfg")
-        if rn.violated != "IncFormsAgree":
-            raise vf.NoVerdict("negative control: as-built x++ did not violate IncFormsAgree (%s %s)" % (rn.violated, rn.error))
-        chk.add_tlc(rn, "negative control (as-built x++) violates IncFormsAgree", count_states=False)
-        # 3. cross-check of the specification against the Go toolchain (never a violation)
-        t0 = time.time()
-        ncross = go_crosscheck(chk, sd, cases)
-        chk.cov["go_crosschecked_cells"] = ncross
-        vf.log("Go cross-check: %d cells in %.0fs" % (ncross, time.time() - t0))
-        # 4. R: every cell on the real interpreter, under each mode
-        ov = stable_overlay(sd)
-        ego = vf.build_ego(sd, ov)
+        stats = {}
+        ego = vf.build_ego(sd, stable_overlay(sd))
         env = vf.ego_env(sd)
-        stats, nrun, classes, setup = {}, 0, set(), []
-        ran, seen = {m: [] for m in MODES}, {}
         t0 = time.time()
-        for mode in MODES:
-            # every cell is isolated by try/catch (one failing cell cannot mask another, one round of processes);
-            # stage 5a re-runs a sample without try/catch and requires identical observations
-            sn = [ep.snippet_arith("ego", i, c, guard=True) for i, c in enumerate(cases) if c["exp"][mode]["wf"]]
-            obs = ep.run_snippets_ego(ego, env, os.path.join(sd, "ego-" + mode), sn, ["--types", mode],
-                                      batch=BATCH, stats=stats)
-            for sid, lines, guard in sn:
-                c, o = cases[sid], obs[sid]
-                nrun += 1
-                ran[mode].append(sid)
-                seen[(mode, sid)] = o
-                d = judge(c, mode, o)
-                if d is None:
-                    classes.add((c["key"], mode))
-                    continue
-                if d[0] == "setup":
-                    setup.append((c["key"], mode, d[1]))
-                    continue
-                classes.add((c["key"], mode))
-                chk.violation("%s/%s/%s" % (c["key"], mode, d[0]),
-                              "%s %s" % (src_of(c, mode), d[1]),
-                              {"case": c, "mode": mode, "observed": o, "program": ep.ego_program([ep.snippet_arith("ego", 0, c)])})
-        vf.log("ego: %d case runs, %d processes in %.0fs" % (nrun, stats.get("processes", 0), time.time() - t0))
+        with ThreadPoolExecutor(max_workers=3) as ex:
+            # 2. negative control: the invariant sees the as-built x++ (vacuity guard)
+            f_neg = ex.submit(gen_cases, chk, sd, False, "asis", "EgoTypes_Arith_MC_asis.cfg")
+            # 3. cross-check of the specification's strict-mode predictions against the Go toolchain (never a violation)
+            f_go = ex.submit(go_crosscheck, chk, sd, cases)
+            # 4. R: every cell on the real interpreter, under each mode
+            f_ego = ex.submit(ego_stage, sd, cases, ego, env, stats)
+            rn = f_neg.result()
+            if rn.violated != "IncFormsAgree":
+                raise vf.NoVerdict("negative control: as-built x++ did not violate IncFormsAgree (%s %s)" % (rn.violated, rn.error))
+            chk.add_tlc(rn, "negative control (as-built x++) violates IncFormsAgree", count_states=False)
+            chk.cov["go_crosschecked_cells"] = f_go.result()
+            seen = f_ego.result()
+        vf.log("negative control, Go cross-check (%d cells), ego (%d case runs, %d processes) in %.0fs"
+               % (chk.cov["go_crosschecked_cells"], len(seen), stats.get("processes", 0), time.time() - t0))
+        nrun, classes, setup, conform = 0, set(), [], []
+        for (mode, sid), o in sorted(seen.items(), key=lambda x: (MODES.index(x[0][0]), x[0][1])):
+            c = cases[sid]
+            nrun += 1
+            d = judge(c, mode, o)
+            if d is not None and d[0] == "setup":
+                setup.append((c["key"], mode, d[1]))
+                continue
+            classes.add((c["key"], mode))
+            if d is None:
+                conform.append((mode, sid))
+                continue
+            chk.violation("%s/%s/%s" % (c["key"], mode, d[0]), "%s %s" % (src_of(c, mode), d[1]),
+                          {"case": c, "mode": mode, "observed": o, "program": ep.ego_program([ep.snippet_arith("ego", 0, c)])})
         if len(setup) * 50 > nrun:
             raise vf.NoVerdict("the harness could not establish the pre-state of %d of %d cases, e.g. %s" % (len(setup), nrun, setup[:3]))
         # 5. binding self-test
         rng = random.Random(vf.SEED)
-        #    a) observations made inside try/catch agree with runs of the same cells without it (a sample; rejected cells alone)
-        niso = 0
-        for mode in MODES:
-            pick = list(ran[mode])
-            rng.shuffle(pick)
+        t0 = time.time()
+        #    a) observations made inside try/catch agree with runs of the same cells without it (a seeded sample)
+        def iso(mode):
+            pick = [sid for (m, sid) in seen if m == mode]
+            rng2 = random.Random(vf.SEED * 7 + MODES.index(mode))
+            rng2.shuffle(pick)
             errs = [sid for sid in pick if seen[(mode, sid)]["err"] is not None][:ISO_ERR]
             oks = [sid for sid in pick if seen[(mode, sid)]["err"] is None][:ISO_OK]
-            sn = [ep.snippet_arith("ego", sid, cases[sid]) for sid in oks]
-            ob = ep.run_snippets_ego(ego, env, os.path.join(sd, "iso-" + mode), sn, ["--types", mode], batch=len(sn) or 1, stats=stats)
-            for sid in errs:
-                ob.update(ep.run_snippets_ego(ego, env, os.path.join(sd, "iso-" + mode), [ep.snippet_arith("ego", sid, cases[sid])],
-                                              ["--types", mode], batch=1, stats=stats))
-            for sid in oks + errs:
-                a, b = seen[(mode, sid)], ob[sid]
-                if (a["P"], a["R"], a["err"] is None) != (b["P"], b["R"], b["err"] is None):
-                    raise vf.NoVerdict("self-test: case %s (%s) behaves differently inside try/catch: %s / alone: %s"
-                                       % (cases[sid]["key"], mode, a, b))
-                niso += 1
+            st = {}
+            ob = ep.run_snippets_ego(ego, env, os.path.join(sd, "iso-" + mode), [ep.snippet_arith("ego", sid, cases[sid]) for sid in oks],
+                                     ["--types", mode], batch=100, stats=st, nproc=5)
+            ob.update(ep.run_snippets_ego(ego, env, os.path.join(sd, "isoe-" + mode), [ep.snippet_arith("ego", sid, cases[sid]) for sid in errs],
+                                          ["--types", mode], batch=1, stats=st, nproc=5))
+            return mode, oks + errs, ob, st
+        niso = 0
+        with ThreadPoolExecutor(max_workers=3) as ex:
+            for mode, sids, ob, st in ex.map(iso, MODES):
+                stats["processes"] = stats.get("processes", 0) + st.get("processes", 0)
+                for sid in sids:
+                    a, b = seen[(mode, sid)], ob[sid]
+                    if (a["P"], a["R"], a["err"] is None) != (b["P"], b["R"], b["err"] is None):
+                        raise vf.NoVerdict("self-test: case %s (%s) behaves differently inside try/catch: %s / alone: %s"
+                                           % (cases[sid]["key"], mode, a, b))
+                    niso += 1
         #    b) a perturbed expectation must be rejected by the comparison, on real observations
-        good = [(i, m) for i, c in enumerate(cases) for m in MODES
-                if c["exp"][m]["wf"] and not any(o["err"] for o in c["exp"][m]["o"])]
+        good = [(m, i) for (m, i) in conform if seen[(m, i)]["err"] is None]
         rng.shuffle(good)
         tested = 0
-        sn = [ep.snippet_arith("ego", "%d_%s" % (i, m), cases[i]) for i, m in good[:6]]
-        for (i, m) in good[:6]:
-            ob = ep.run_snippets_ego(ego, env, os.path.join(sd, "self"), [ep.snippet_arith("ego", i, cases[i])], ["--types", m], batch=1, stats=stats)[i]
-            if judge(cases[i], m, ob) is not None:
-                continue                                      # a diverging cell (already reported above)
+        for (m, i) in good[:20]:
             for pert in ("value", "type", "error"):
                 exp = json.loads(json.dumps(cases[i]["exp"][m]["o"]))
                 for o in exp:
@@ -214,11 +248,18 @@ def run():
                         o["k"] = "int16" if o["k"] != "int16" else "int32"
                     else:
                         o["err"] = True
-                if judge(cases[i], m, ob, exp) is None:
+                if judge(cases[i], m, seen[(m, i)], exp) is None:
                     raise vf.NoVerdict("binding self-test failed: perturbed expectation (%s) accepted for %s" % (pert, cases[i]["key"]))
                 tested += 1
-        if tested < 3:
-            raise vf.NoVerdict("binding self-test could not be carried out")
+        #    ... and an accepted run must be rejected where a rejection is expected, and vice versa
+        bad_err = [(m, i) for (m, i) in conform if seen[(m, i)]["err"] is not None]
+        for (m, i) in bad_err[:5]:
+            if judge(cases[i], m, seen[(m, i)], [{"err": False, "k": "int", "s": "0"}]) is None:
+                raise vf.NoVerdict("binding self-test failed: a rejection was accepted where a value is expected")
+            tested += 1
+        if tested < 9 or niso < 10:
+            raise vf.NoVerdict("binding self-test could not be carried out (%d, %d)" % (tested, niso))
+        vf.log("self-test in %.0fs" % (time.time() - t0))
         chk.cov["binding_selftest"] = "%d perturbed expectations rejected; %d cells re-run without try/catch agree" % (tested, niso)
         chk.cov["traces_validated_against_impl"] = nrun
         chk.cov["evaluations"] = nrun
